@@ -203,10 +203,16 @@ def wl_datetimes(ctx, rng, i):
                 try:
                     import copy as _copy
                     sd = u.STIXdatetime(x, precision=p, precision_constraint=c)
-                    for how, cp in (("deepcopy", _copy.deepcopy(sd)), ("deepcopy of a holder", _copy.deepcopy({"v": [sd]})["v"][0])):
+                    import pickle as _pickle
+                    for how, cp in (("deepcopy", _copy.deepcopy(sd)), ("deepcopy of a holder", _copy.deepcopy({"v": [sd]})["v"][0]),
+                                    ("copy.copy", _copy.copy(sd)), ("pickle round trip (protocol %d)" % (ctx.counters.get("evaluations", 0) % 6),
+                                                                    _pickle.loads(_pickle.dumps(sd, ctx.counters.get("evaluations", 0) % 6))),
+                                    ("pickle round trip of a holder", _pickle.loads(_pickle.dumps({"v": [sd]}))["v"][0])):
+                        ctx.count("copies_written")
                         gc = u.format_datetime(cp)
                         if gc != exp:
-                            ctx.violation(classify_text_mismatch(gc, exp), "a %s of a %s/%s timestamp is written %r, the original %r" % (how, p, c, gc, exp),
+                            ctx.violation(classify_text_mismatch(gc, exp) + (":shallow-copy-or-pickle" if how.startswith(("copy.copy", "pickle")) else ""),
+                                          "a %s of a %s/%s timestamp is written %r, the original %r" % (how, p, c, gc, exp),
                                           {"input": repr(x), "precision": p, "constraint": c, "got": gc, "expected": exp, "route": how})
                             break
                 except Exception as e:
@@ -229,6 +235,22 @@ def wl_datetimes(ctx, rng, i):
                     md = stix2.v20.MarkingDefinition(definition_type="statement", definition={"statement": "s"}, created=cv)
                     first = md.serialize()
                     second = stix2.parse(first, version="2.0").serialize()
+                    # (an object that went through pickle -- to another process, say -- writes what the original writes; objects whose
+                    # class cannot be pickled at all are not the subject)
+                    import pickle as _pickle
+                    if cv is not None and cv != []:
+                        idn = stix2.v20.Identity(name="n", identity_class="individual", created=cv, modified=cv)
+                        try:
+                            unpickled = _pickle.loads(_pickle.dumps(idn)).serialize()
+                        except Exception:
+                            unpickled = None
+                            ctx.skip("object not picklable")
+                        ctx.count("pickled_objects")
+                        if unpickled is not None and unpickled != idn.serialize():
+                            ctx.violation("fixed-point:pickled-object", "a 2.0 identity writes %s, after a pickle round trip %s" % (
+                                idn.serialize()[idn.serialize().find('"created"'):][:45], unpickled[unpickled.find('"created"'):][:45]),
+                                {"input": repr(cv), "given_as": label, "first": idn.serialize(), "second": unpickled, "route": "pickle.loads(pickle.dumps(v20.Identity))"})
+                            break
                     ctx.ev()
                     ctx.count("object_fixed_points")
                     ctx.see("2.0 statement marking created given as", label.split(":")[0].split("[")[0])
